@@ -985,8 +985,8 @@ Section XPileTarget.
 
   Lemma xpile_target : XMoveTarget nx (map snd its).
   Proof.
-    unfold nx. intros s col row i cs c' r' nf Hf Hok _ E. cbn [n_fits n_move n_place] in *. unfold xpile_move in E.
-    destruct (pile_find (xpile_rows_sizes its s) 0 0 row) as [[[i0 wrow] cs0]|] eqn:Efind; [|discriminate].
+    unfold nx, xpile_node. intros s col row i cs c' r' nf Hf Hok _ E. cbn [n_fits n_move n_place] in *. unfold xpile_move in E.
+    destruct (pile_find (xpile_rows_sizes its s) 0 0 row) as [[[i0 wrow] cs0]|] eqn:Efind; [|discriminate]. cbv zeta in E.
     destruct (i_sel (xc (nth_xinfo (map snd its) i0))) eqn:Es; cbn [negb] in E; [|discriminate].
     destruct (i_hasmove (xc (nth_xinfo (map snd its) i0))) eqn:Eh; [|discriminate].
     inversion E; subst. split; [exact Eh|].
@@ -1015,3 +1015,555 @@ Section XPileTarget.
     split; [|split; reflexivity]. rewrite E. apply pile_place_from_in; [exact Hpre|qlia].
   Qed.
 End XPileTarget.
+
+Lemma xpile_wtotal_opts a b c : map fst a = map fst b -> snd (xpile_pass1 a c) = snd (xpile_pass1 b c).
+Proof.
+  revert b. induction a as [|[o xi] a IH]; intros [|[o' xi'] b] H; try discriminate; [reflexivity|].
+  cbn [map fst] in H. inversion H; subst o'. cbn [xpile_pass1]. specialize (IH b H2).
+  destruct (xpile_pass1 a c) as [[l u] w]. destruct (xpile_pass1 b c) as [[l' u'] w']. cbn [snd] in *. subst w'.
+  destruct o; cbn [snd]; try reflexivity. destruct (n =? 0); reflexivity.
+Qed.
+
+Lemma forall2_map_fst {A B} (R : A * B -> A * B -> Prop) a b :
+  (forall x y, R x y -> fst x = fst y) -> Forall2 R a b -> map fst a = map fst b.
+Proof. intros HR H. induction H as [|x y l l' Hxy _ IH]; [reflexivity|]. cbn [map]. rewrite IH, (HR _ _ Hxy). reflexivity. Qed.
+
+Lemma xpile_widths_stat a b c :
+  Forall2 prel_stat a b ->
+  forallb (fun it : popt * xinfo => x_flow (snd it) || negb (x_fixed (snd it) && is_ppack (fst it)) || (fst (x_pack (snd it)) <=? c)) a
+  = forallb (fun it : popt * xinfo => x_flow (snd it) || negb (x_fixed (snd it) && is_ppack (fst it)) || (fst (x_pack (snd it)) <=? c)) b.
+Proof.
+  intro H. induction H as [|[o xi] [o' xi'] l l' [Ho [Hf [Hx [Hp _]]]] _ IH]; [reflexivity|].
+  cbn [forallb fst snd] in *. subst o'. rewrite Hf, Hx, Hp, IH. reflexivity.
+Qed.
+
+Lemma xpile_fits_cong mw s a b fp :
+  Forall2 (xprel mw s) a b -> mw = xpile_max_width b ->
+  (is_fixed s = false -> 0 <= fst s) -> (is_fixed s = true -> 0 <= mw) ->
+  xpile_fits a fp s = xpile_fits b fp s.
+Proof.
+  intros H Emw Hs Hm. pose proof (xprel_stat _ _ _ _ H) as Hst. unfold xpile_fits.
+  rewrite (xpile_rows_sizes_cong mw s a b H Emw Hs Hm), (xpile_max_width_stat _ _ Hst), (xpile_widths_stat _ _ (fst s) Hst).
+  assert (El : zlen a = zlen b) by (unfold zlen; rewrite (forall2_length _ _ _ H); reflexivity). rewrite El.
+  rewrite (xpile_wtotal_opts a b (fst s)); [reflexivity|].
+  apply (forall2_map_fst (xprel mw s)); [intros x y [E _]; exact E|exact H].
+Qed.
+
+Lemma xpile_sel_cong mw s a b :
+  Forall2 (xprel mw s) a b ->
+  existsb (fun it : popt * xinfo => i_sel (xc (snd it))) a = existsb (fun it : popt * xinfo => i_sel (xc (snd it))) b.
+Proof.
+  intro H. induction H as [|[o xi] [o' xi'] l l' [Ho [[Es _] _]] _ IH]; [reflexivity|].
+  cbn [existsb snd] in *. rewrite Es, IH. reflexivity.
+Qed.
+
+Lemma xpile_info_cong mw s a b kc kc' :
+  Forall2 (xprel mw s) a b -> mw = xpile_max_width b ->
+  (is_fixed s = false -> 0 <= fst s) -> (is_fixed s = true -> 0 <= mw) ->
+  xieq s (xpile_info a kc') (xpile_info b kc).
+Proof.
+  intros H Emw Hs Hm. pose proof (xprel_stat _ _ _ _ H) as Hst.
+  unfold xpile_info, xpile_cinfo. rewrite (xpile_sizing_stat _ _ Hst). destruct (xpile_sizing b) as [[bx f] x].
+  unfold xieq. cbn [xc x_flow x_fixed x_pack fst snd i_rows].
+  split; [repeat split; cbn [i_sel i_hascur i_hasmove i_box]; try reflexivity; apply (xpile_sel_cong mw s); exact H|].
+  split; [reflexivity|]. split; [reflexivity|]. split; [apply xpile_max_width_stat; exact Hst|]. split.
+  - intro Efx. rewrite <- (xrs_fixed_indep a s Efx), <- (xrs_fixed_indep b s Efx).
+    rewrite (xpile_rows_sizes_cong mw s a b H Emw Hs Hm). reflexivity.
+  - intros Efx Esn. specialize (Hs Efx). destruct s as [c r]. cbn [fst snd] in *. subst r.
+    rewrite (xpile_item_rows_cong mw (c, None) a b Efx Hs H). reflexivity.
+Qed.
+
+(* ---- replacing one element of a list ---- *)
+Fixpoint set_nth_g {B} (l : list B) (i : Z) (x : B) : list B :=
+  match l with [] => [] | y :: r => if i =? 0 then x :: r else y :: set_nth_g r (i - 1) x end.
+
+Lemma map_set_nth_g {B C} (f : B -> C) l i x : map f (set_nth_g l i x) = set_nth_g (map f l) i (f x).
+Proof. revert i. induction l as [|y l IH]; intro i; [reflexivity|]. cbn [set_nth_g map]. destruct (i =? 0); cbn [map]; [reflexivity|]. rewrite IH. reflexivity. Qed.
+Lemma set_nth_v_g l i v : set_nth_v l i v = set_nth_g l i v.
+Proof. revert i. induction l as [|y l IH]; intro i; [reflexivity|]. cbn [set_nth_v set_nth_g]. rewrite IH. reflexivity. Qed.
+Lemma set_nth_g_length {B} (l : list B) i x : length (set_nth_g l i x) = length l.
+Proof. revert i. induction l as [|y l IH]; intro i; [reflexivity|]. cbn [set_nth_g]. destruct (i =? 0); cbn [length]; [reflexivity|]. rewrite IH. reflexivity. Qed.
+Lemma nthz_set_nth_g_same {B} (l : list B) i x : 0 <= i < zlen l -> nthz (set_nth_g l i x) i = Some x.
+Proof.
+  revert i. induction l as [|y l IH]; intros i H; [unfold zlen in H; cbn in H; qlia|].
+  cbn [set_nth_g]. destruct (i =? 0) eqn:E; rewrite nthz_cons, E; [reflexivity|].
+  assert (E2 : i <? 0 = false) by qlia. rewrite E2. rewrite zlen_cons in H. apply IH. qlia.
+Qed.
+Lemma xkids_set_nth_w {A} (items : list (A * widget)) i c :
+  map (fun it => xview (snd it)) (set_nth_w items i c) = set_nth_g (map (fun it => xview (snd it)) items) i (xview c).
+Proof.
+  revert i. induction items as [|[a w] items IH]; intro i; [reflexivity|]. cbn [set_nth_w map set_nth_g snd].
+  destruct (i =? 0); cbn [map snd]; [reflexivity|]. f_equal. apply IH.
+Qed.
+Lemma combine_set_g {A B} (R : A * B -> A * B -> Prop) (opts : list A) l i x' o x :
+  (forall z, R z z) -> nthz (combine opts l) i = Some (o, x) -> R (o, x') (o, x) ->
+  Forall2 R (combine opts (set_nth_g l i x')) (combine opts l).
+Proof.
+  intros Hrefl. revert l i. induction opts as [|a opts IH]; intros l i Hn HR; [constructor|].
+  destruct l as [|k l]; [cbn in Hn; rewrite nthz_nil in Hn; discriminate|].
+  cbn [set_nth_g combine] in *. rewrite nthz_cons in Hn. destruct (i =? 0) eqn:E.
+  - inversion Hn; subst. cbn [combine]. constructor; [exact HR|].
+    clear - Hrefl. induction (combine opts l); constructor; auto.
+  - destruct (i <? 0); [discriminate|]. cbn [combine]. constructor; [apply Hrefl|]. apply IH; assumption.
+Qed.
+Lemma sized_set_nth_w {A} (items : list (A * widget)) (g : A -> bool) i c o c0 :
+  nthz items i = Some (o, c0) -> sized_tree c = sized_tree c0 ->
+  forallb (fun it => g (fst it) && sized_tree (snd it)) (set_nth_w items i c)
+  = forallb (fun it => g (fst it) && sized_tree (snd it)) items.
+Proof.
+  revert i. induction items as [|[a w] items IH]; intros i Hn Hs; [reflexivity|]. cbn [set_nth_w].
+  rewrite nthz_cons in Hn. destruct (i =? 0) eqn:E.
+  - inversion Hn; subst. cbn [forallb fst snd]. rewrite Hs. reflexivity.
+  - destruct (i <? 0); [discriminate|]. cbn [forallb]. rewrite (IH _ Hn Hs). reflexivity.
+Qed.
+
+(* a box size demands nothing of a child's rows() or packed height *)
+Lemma xieq_box c n s0 a b : xieq s0 a b -> 0 <= c -> xieq (c, Some n) a b.
+Proof.
+  intros [H1 [H2 [H3 [H4 _]]]] Hc. split; [exact H1|]. split; [exact H2|]. split; [exact H3|]. split; [exact H4|].
+  split; [intro E; rewrite (not_fixed_nonneg c (Some n) Hc) in E; discriminate E|intros _ E; discriminate E].
+Qed.
+
+(* the size an item gets in get_rows_sizes is the size class [xitem_cs] (up to the number of rows of a box size) *)
+Lemma xrs_nth_cs its s i h cs o xi :
+  (is_fixed s = false -> 0 <= fst s) ->
+  nthz (xpile_rows_sizes its s) i = Some (h, cs) -> nthz its i = Some (o, xi) ->
+  cs = xitem_cs (xpile_max_width its) s o xi \/
+  (exists n, cs = (fst s, Some n) /\ exists n', xitem_cs (xpile_max_width its) s o xi = (fst s, Some n')).
+Proof.
+  intros Hs Hn Hi. unfold xpile_rows_sizes in Hn. unfold xitem_cs. destruct (is_fixed s) eqn:Efx.
+  - destruct (xpile_fixed_supported its); [|rewrite nthz_nil in Hn; discriminate].
+    rewrite nthz_map, Hi in Hn. cbn [option_map snd] in Hn. destruct (x_flow xi); inversion Hn; left; reflexivity.
+  - rewrite nthz_map in Hn.
+    destruct (nthz (combine its (xpile_item_rows its s)) i) as [[[o1 xi1] ir]|] eqn:E; [|discriminate].
+    apply nthz_combine_inv in E as [Ei _]. rewrite Hi in Ei. inversion Ei; subst o1 xi1. cbn [option_map] in Hn.
+    destruct o as [|n|n].
+    + inversion Hn. left. reflexivity.
+    + inversion Hn. left. reflexivity.
+    + destruct (snd s); inversion Hn; [right; eauto|left; reflexivity].
+Qed.
+
+Lemma xmove_ok_pile items fp : Forall (fun it => XMoveOK (snd it)) items -> XMoveOK (Pile items fp).
+Proof.
+  intro IH. destruct (sized_tree (Pile items fp)) eqn:Hz; [apply xmove_ok_sized; exact Hz|].
+  intros s col row. rewrite (xview_unsized' _ Hz I). unfold xnodeof, xselfof. cbn [xkids xnode_of fst snd].
+  set (kids := map (fun it : popt * widget => xview (snd it)) items).
+  set (its := combine (map fst items) (map snd kids)).
+  intros Hf Hm. cbn [xinterp interp v_move v_info] in *. unfold interp_move.
+  destruct (xinterp_fits_inv _ _ _ _ Hf) as [Hsok [Hn Hkids]].
+  assert (Elen : length (map fst items) = length (map snd kids)) by (unfold kids; rewrite !map_length; reflexivity).
+  assert (Eki : map snd its = map snd kids) by (apply map_snd_combine; exact Elen).
+  assert (Ezl : zlen its = zlen items).
+  { unfold its. rewrite (zlen_combine_same _ _ Elen). apply zlen_map. }
+  assert (Ezk : zlen kids = zlen items) by (unfold kids; apply zlen_map).
+  unfold xpile_node in Hn, Hkids |- *. cbn [n_move n_fits n_place n_info] in *.
+  assert (Hs0 : is_fixed s = false -> 0 <= fst s).
+  { intro E. destruct (not_fixed_pos s Hsok E) as [H _]. qlia. }
+  assert (Hm0 : is_fixed s = true -> 0 <= xpile_max_width its).
+  { intro E. unfold xpile_fits in Hn. rewrite E in Hn. apply andb_true_iff in Hn as [_ Hn]. qlia. }
+  destruct (xpile_move its s col row) as [| |i|i cs c' r' nf] eqn:E; cbn [m_ok m_w m_asked]; cbv zeta.
+  - intro H; discriminate H.
+  - exfalso. unfold xpile_move in E. destruct (pile_find _ _ _ _) as [[[? ?] ?]|]; [|discriminate]. cbv zeta in E.
+    destruct (i_sel _) in E; cbn [negb] in E; [|discriminate]. destruct (i_hasmove _) in E; discriminate.
+  - (* focus moved, child not asked *)
+    intros _. cbn [set_focus].
+    assert (Hz' : sized_tree (Pile items i) = false) by exact Hz.
+    rewrite (xview_unsized' _ Hz' I). unfold xnodeof, xselfof. cbn [xkids xnode_of fst snd]. fold kids. fold its.
+    split; [reflexivity|]. split; [apply xieq_refl|]. split; [|intro H; congruence].
+    unfold xpile_move in E. destruct (pile_find (xpile_rows_sizes its s) 0 0 row) as [[[i0 wrow] cs0]|] eqn:Efind; [|discriminate].
+    cbv zeta in E. destruct (i_sel _) in E; cbn [negb] in E; [|discriminate]. destruct (i_hasmove _) in E; [discriminate|]. inversion E; subst i0.
+    destruct (xpile_find_placed its fp s row i wrow cs0 Hn Hsok Efind) as [Hi _].
+    eapply (xstep_refits (Pile items fp) (Pile items i)); [exact Hf| |].
+    + unfold xpile_node. cbn [n_fits]. apply (xpile_fits_refocus its fp s i Hn Hi).
+    + unfold xpile_node. cbn [n_place]. intros q Hq. apply (xpile_place_refocus its fp s i q Hn Hsok Hq).
+  - unfold xpile_move in E. destruct (pile_find (xpile_rows_sizes its s) 0 0 row) as [[[i0 wrow] cs0]|] eqn:Efind; [|discriminate].
+    cbv zeta in E.
+    destruct (i_sel (xc (nth_xinfo (map snd its) i0))) eqn:Esel; cbn [negb] in E; [|discriminate].
+    destruct (i_hasmove (xc (nth_xinfo (map snd its) i0))) eqn:Ehm; [|discriminate].
+    inversion E; subst i0 cs0 c' r' nf. clear E.
+    destruct (xpile_find_placed its fp s row i wrow cs Hn Hsok Efind) as [Hi [Hw Hpl]].
+    destruct (Hpl fp) as [Hp Hfun]. destruct (Hpl i) as [Hp' _].
+    assert (Hik : 0 <= i < zlen kids) by qlia.
+    destruct (nthz_some items i) as [[o ci] Hni]; [qlia|].
+    assert (Hnk : nthz kids i = Some (xview ci)) by (unfold kids; rewrite nthz_map, Hni; reflexivity).
+    assert (Ekid : forall d, nth_view d (map fst kids) i = fst (xview ci)).
+    { intro d. unfold nth_view. rewrite nthz_map, Hnk. reflexivity. }
+    assert (Einfo : nth_xinfo (map snd its) i = snd (xview ci)).
+    { rewrite Eki. unfold nth_xinfo. rewrite nthz_map, Hnk. reflexivity. }
+    rewrite Ekid. rewrite Einfo in Esel, Ehm.
+    set (v := fst (xview ci)) in *. set (xi := snd (xview ci)) in *.
+    destruct (xall_all ci) as [[Ok [FO _]] _]. unfold XOk in Ok. fold v xi in Ok, FO.
+    assert (Hcf : v_fits v cs = true).
+    { specialize (Hkids _ Hp). cbn [p_idx p_size] in Hkids. rewrite Ekid in Hkids. exact Hkids. }
+    assert (IHi : XMoveOK ci).
+    { rewrite Forall_forall in IH. apply (IH (o, ci)). eapply nthz_In; eauto. }
+    rewrite <- Ok in Ehm. specialize (IHi cs col (row - wrow) Hcf Ehm). cbv zeta in IHi. fold v xi in IHi.
+    destruct (m_ok (v_move v cs col (row - wrow))) eqn:Eok; cbn [m_ok m_w m_asked]; [|intro H; discriminate H].
+    intros _. cbn [set_child set_focus] in *.
+    set (c2 := m_w (v_move v cs col (row - wrow))) in *.
+    destruct (IHi eq_refl) as [Hz2 [Hieq [Hfit' Hasked]]]. clear IHi.
+    assert (Hz' : sized_tree (Pile (set_nth_w items i c2) i) = false).
+    { rewrite <- Hz. cbn [sized_tree].
+      change (forallb (fun it : popt * widget => (fun _ : popt => true) (fst it) && sized_tree (snd it)) (set_nth_w items i c2)
+              = forallb (fun it : popt * widget => (fun _ : popt => true) (fst it) && sized_tree (snd it)) items).
+      apply (sized_set_nth_w items (fun _ => true) i c2 o ci Hni Hz2). }
+    rewrite (xview_unsized' _ Hz' I). unfold xnodeof, xselfof. cbn [xkids xnode_of fst snd].
+    rewrite xkids_set_nth_w, map_fst_set_nth_w. fold kids. rewrite !map_set_nth_g.
+    set (xi2 := snd (xview c2)) in *. set (v2 := fst (xview c2)) in *.
+    set (its' := combine (map fst items) (set_nth_g (map snd kids) i xi2)).
+    assert (Hits : nthz its i = Some (o, xi)).
+    { unfold its. apply nthz_combine; [rewrite nthz_map, Hni; reflexivity|]. rewrite nthz_map, Hnk. reflexivity. }
+    assert (Hrs : exists h, nthz (xpile_rows_sizes its s) i = Some (h, cs)).
+    { destruct (pile_find_inv _ _ _ _ _ _ _ Efind) as [pre [x [post [Ers [Ei [_ [Ecs _]]]]]]].
+      pose proof (nthz_app_mid pre x post) as Hx. rewrite <- Ers in Hx. replace (zlen pre) with i in Hx by qlia.
+      destruct x as [h0 cs0]. cbn [snd] in Ecs. subst cs0. exists h0. exact Hx. }
+    destruct Hrs as [h0 Hrs].
+    assert (Hrel : Forall2 (xprel (xpile_max_width its) s) its' its).
+    { unfold its', its. apply (combine_set_g (xprel (xpile_max_width its) s) (map fst items) (map snd kids) i xi2 o xi).
+      - apply xprel_refl.
+      - exact Hits.
+      - split; [reflexivity|]. cbn [fst snd].
+        destruct (xrs_nth_cs its s i h0 cs o xi Hs0 Hrs Hits) as [<-|[n [Ecs [n' Ecs']]]]; [exact Hieq|].
+        rewrite Ecs'. apply (xieq_box _ _ _ _ _ Hieq). destruct (is_fixed s) eqn:Efs; [|apply Hs0; reflexivity].
+        exfalso. unfold xitem_cs in Ecs'. rewrite Efs in Ecs'. destruct (x_flow xi); discriminate Ecs'. }
+    pose proof (xprel_stat _ _ _ _ Hrel) as Hst.
+    assert (Emw : xpile_max_width its = xpile_max_width its) by reflexivity.
+    assert (Elen' : length (map fst items) = length (set_nth_g (map snd kids) i xi2)).
+    { rewrite set_nth_g_length. exact Elen. }
+    assert (Eki' : map snd its' = set_nth_g (map snd kids) i xi2) by (apply map_snd_combine; exact Elen').
+    assert (Efits : xpile_fits its' i s = true).
+    { rewrite (xpile_fits_cong _ s its' its i Hrel Emw Hs0 Hm0). apply (xpile_fits_refocus its fp s i Hn Hi). }
+    assert (Ers : xpile_rows_sizes its' s = xpile_rows_sizes its s) by (apply (xpile_rows_sizes_cong _ s its' its Hrel Emw Hs0 Hm0)).
+    split; [rewrite Hz, Hz'; reflexivity|]. split; [apply (xpile_info_cong _ s its' its _ _ Hrel Emw Hs0 Hm0)|]. split.
+    + rewrite <- set_nth_v_g.
+      apply (xstep_fits (Pile items fp) _ (xpile_node its fp) _ (map fst kids) i v2 s Hf).
+      * unfold xpile_node. cbn [n_fits]. exact Efits.
+      * unfold xpile_node. cbn [n_place]. intros q Hq. rewrite Ers in Hq. apply (xpile_place_refocus its fp s i q Hn Hsok Hq).
+      * unfold xpile_node. cbn [n_place]. intros q Hq Hqi. rewrite (Hfun q Hq Hqi). cbn [p_size]. exact Hfit'.
+      * rewrite zlen_map. exact Hik.
+    + intro Hne. destruct (Hasked Hne) as [_ [Hrow [x Hcur]]].
+      destruct Hieq as [[Es [Ec [Em Eb]]] Erest].
+      destruct (xall_all c2) as [[Ok2 _] _]. unfold XOk in Ok2. fold v2 xi2 in Ok2.
+      split; [|split].
+      * unfold xpile_cinfo. destruct (xpile_sizing its) as [[? ?] ?]. cbn [i_sel]. apply existsb_exists.
+        exists (o, xi). split; [eapply nthz_In; eauto|]. exact Esel.
+      * pose proof (xpile_within its fp (map x_ccols (map snd kids)) s _ Hn Hsok Hp) as HW. cbn [p_idx p_size p_x p_y] in HW.
+        rewrite Einfo in HW. destruct HW as [_ [_ [Hy0 Hy1]]]; [apply FO; exact Hcf|]. clear - Hy0 Hy1 Hrow Hw. qlia.
+      * set (kids' := set_nth_g kids i (v2, xi2)).
+        assert (Ekv' : map fst kids' = set_nth_g (map fst kids) i v2) by (unfold kids'; rewrite map_set_nth_g; reflexivity).
+        assert (Ekx' : map snd kids' = set_nth_g (map snd kids) i xi2) by (unfold kids'; rewrite map_set_nth_g; reflexivity).
+        rewrite <- Ekv'.
+        assert (Hk2 : nthz kids' i = Some (v2, xi2)) by (apply nthz_set_nth_g_same; exact Hik).
+        assert (Ev2 : nth_view (Pile (set_nth_w items i c2) i) (map fst kids') i = v2).
+        { unfold nth_view. rewrite nthz_map, Hk2. reflexivity. }
+        assert (Ex2 : nth_xinfo (map snd kids') i = xi2).
+        { unfold nth_xinfo. rewrite nthz_map, Hk2. reflexivity. }
+        apply (xstep_cursor _ (xpile_node its' i) kids' s i cs x (row - wrow) row).
+        -- rewrite Ekx', <- Eki'. apply (xpile_cursor_ok its' i []).
+        -- unfold xpile_node. cbn [n_fits]. exact Efits.
+        -- exact Hsok.
+        -- exists (Placed i 0 wrow cs (i =? i) false). unfold xpile_node. cbn [n_place p_isfocus p_idx p_size p_y].
+           split; [rewrite Ers; exact Hp'|]. clear. repeat split; qlia.
+        -- rewrite Ev2. exact Hcur.
+        -- rewrite Ex2, Es. exact Esel.
+        -- rewrite Ex2, <- Ok2. apply xhasmove_hascur. fold v2. rewrite Ok2, Em, <- Ok. exact Ehm.
+        -- apply FO. exact Hcf.
+        -- rewrite Ex2. rewrite (xh_xieq cs xi2 xi); [apply Hrow|]. split; [repeat split; assumption|exact Erest].
+Qed.
+
+
+(* ------------------------------------------------------------------------------------------ *)
+(* Part 6: Columns                                                                             *)
+(* ------------------------------------------------------------------------------------------ *)
+(* Columns.column_widths with 'pack' columns = column_widths of Geometry.v once each 'pack' column is given the
+   width its widget packs to *)
+Definition resolve_opt (mw maxcol : Z) (it : copt * bool * xinfo) : copt :=
+  match fst (fst it) with CPack => CGiven (xstatic_w CPack (snd it) mw maxcol) | o => o end.
+
+Lemma resolve_static mw maxcol it :
+  static_w (resolve_opt mw maxcol it) mw = xstatic_w (fst (fst it)) (snd it) mw maxcol.
+Proof. destruct it as [[o b] xi]. unfold resolve_opt. cbn [fst snd]. destruct o; reflexivity. Qed.
+
+Lemma xcw_phase1_resolve items : forall i fp dc mw maxcol shared,
+  xcw_phase1 items i fp dc mw maxcol shared = cw_phase1 (map (resolve_opt mw maxcol) items) i fp dc mw shared.
+Proof.
+  induction items as [|[[o b] xi] items IH]; intros i fp dc mw maxcol shared; [reflexivity|].
+  cbn [xcw_phase1 map cw_phase1]. rewrite (resolve_static mw maxcol (o, b, xi)). cbn [fst snd].
+  destruct ((shared <? xstatic_w o xi mw maxcol + dc) && (fp <? i)); [reflexivity|].
+  rewrite IH. destruct (cw_phase1 _ _ _ _ _ _) as [[ws sh] wt]. destruct o; reflexivity.
+Qed.
+
+Lemma xcolumn_widths_resolve items fp dc mw maxcol :
+  xcolumn_widths items fp dc mw maxcol = column_widths (map (resolve_opt mw maxcol) items) fp dc mw maxcol.
+Proof. unfold xcolumn_widths, column_widths. rewrite xcw_phase1_resolve. reflexivity. Qed.
+
+Lemma xcolumn_widths_fp items fp fp' dc mw maxcol :
+  0 <= dc -> forallb (fun it : copt * bool * xinfo => 0 <=? xstatic_w (fst (fst it)) (snd it) mw maxcol) items = true ->
+  zsum (map (fun it : copt * bool * xinfo => xstatic_w (fst (fst it)) (snd it) mw maxcol + dc) items) <= maxcol + dc ->
+  xcolumn_widths items fp dc mw maxcol = xcolumn_widths items fp' dc mw maxcol.
+Proof.
+  intros Hd Hall Hsum. rewrite !xcolumn_widths_resolve. apply column_widths_fp; [exact Hd| |].
+  - apply Forall_map. apply Forall_forall. intros it Hit. rewrite resolve_static.
+    rewrite forallb_forall in Hall. specialize (Hall it Hit). qlia.
+  - rewrite map_map. erewrite map_ext; [exact Hsum|]. intro it. cbv beta. rewrite resolve_static. reflexivity.
+Qed.
+
+Lemma xcolumns_fits_static its fp dc mw s :
+  xcolumns_fits its fp dc mw s = true -> is_fixed s = false ->
+  0 <= dc /\ forallb (fun it : copt * bool * xinfo => 0 <=? xstatic_w (fst (fst it)) (snd it) mw (fst s)) its = true /\
+  zsum (map (fun it : copt * bool * xinfo => xstatic_w (fst (fst it)) (snd it) mw (fst s) + dc) its) <= fst s + dc.
+Proof.
+  intros Hf Efx. unfold xcolumns_fits in Hf. rewrite Efx in Hf. cbn [orb] in Hf.
+  apply andb_true_iff in Hf as [Hf H8]. apply andb_true_iff in H8 as [H8 H10]. apply andb_true_iff in H8 as [H8 H9].
+  apply andb_true_iff in Hf as [Hf H7]. apply andb_true_iff in Hf as [Hf H6].
+  apply andb_true_iff in Hf as [Hf H5]. apply andb_true_iff in Hf as [Hf H4]. 
+  split; [qlia|]. split; [exact H9|qlia].
+Qed.
+
+Lemma xcolumns_sizes_fp its fp fp' dc mw s :
+  xcolumns_fits its fp dc mw s = true ->
+  xcolumns_sizes its fp' dc mw s = xcolumns_sizes its fp dc mw s.
+Proof.
+  intro Hf. unfold xcolumns_sizes. destruct (is_fixed s) eqn:Efx; [reflexivity|].
+  destruct (xcolumns_fits_static its fp dc mw s Hf Efx) as [Hd [Hall Hsum]].
+  rewrite (xcolumn_widths_fp its fp' fp dc mw (fst s) Hd Hall Hsum). reflexivity.
+Qed.
+
+Lemma xcolumns_fits_refocus its fp fp' dc mw s :
+  xcolumns_fits its fp dc mw s = true -> 0 <= fp' < zlen its -> xcolumns_fits its fp' dc mw s = true.
+Proof.
+  intros Hf Hi. pose proof (xcolumns_sizes_fp its fp fp' dc mw s Hf) as E.
+  unfold xcolumns_fits in *. rewrite E.
+  repeat (apply andb_true_iff in Hf as [Hf ?]).
+  repeat (apply andb_true_iff; split); try assumption; qlia.
+Qed.
+
+Section XColumnsTarget.
+  Variable its : xc_items.
+  Variable fp dc mw : Z.
+
+  Lemma xcolumns_best_placed s col i x e csz :
+    xcolumns_fits its fp dc mw s = true ->
+    columns_best (xcolumns_sizes its fp dc mw s) (map (fun it : copt * bool * xinfo => i_sel (xc (snd it))) its) 0 0 dc col None
+      = Some (i, x, e, csz) ->
+    0 <= i < zlen its /\ i_sel (xc (nth_xinfo (map snd its) i)) = true /\
+    (forall fp', In (Placed i x 0 csz (fp' =? i) false)
+                    (columns_place_from (xcolumns_sizes its fp dc mw s) 0 0 (zlen (xcolumns_sizes its fp dc mw s)) fp' dc) /\
+      (forall q, In q (columns_place_from (xcolumns_sizes its fp dc mw s) 0 0 (zlen (xcolumns_sizes its fp dc mw s)) fp' dc) ->
+                 p_idx q = i -> q = Placed i x 0 csz (fp' =? i) false)).
+  Proof.
+    intros Hf Hb. destruct (xcolumns_fits_inv its fp dc mw s Hf) as [Hfp [Hdc [Hlen [Hw _]]]].
+    destruct (columns_best_inv _ _ _ _ _ _ _ _ Hb) as [Hn|[pre [t [post [E [Hsel Hr]]]]]]; [discriminate|].
+    inversion Hr; subst i x e csz. clear Hr.
+    pose proof Hw as Hw'. rewrite E in Hw'. apply Forall_app in Hw' as [Hpre Hrest].
+    pose proof (Forall_inv Hrest) as Ht. cbn beta in Ht.
+    pose proof Hlen as Hlen'. rewrite E, zlen_app, zlen_cons in Hlen'. pose proof (zlen_nonneg pre). pose proof (zlen_nonneg post).
+    replace (0 + zlen pre) with (zlen pre) by qlia. replace (0 + xoff dc pre) with (xoff dc pre) by qlia.
+    split; [qlia|]. split.
+    - rewrite nthz_map in Hsel. destruct (nthz its (zlen pre)) as [[[o b] xi]|] eqn:Ei; [|discriminate].
+      cbn [option_map snd] in Hsel. unfold nth_xinfo. rewrite nthz_map, Ei. cbn [option_map snd]. congruence.
+    - intro fp'. split.
+      + rewrite E at 1.
+        pose proof (columns_place_from_in fp' dc pre t post 0 0 _ eq_refl Hpre Ht) as G.
+        replace (0 + zlen pre) with (zlen pre) in G by qlia. replace (0 + xoff dc pre) with (xoff dc pre) in G by qlia.
+        rewrite E. exact G.
+      + intros q Hq Hqi.
+        destruct (columns_place_from_inv fp' dc _ 0 0 _ q eq_refl Hw Hq) as [pre2 [t2 [post2 [E2 ->]]]].
+        cbn [p_idx] in Hqi. rewrite E in E2.
+        destruct (app_mid_eq pre pre2 t t2 post post2 E2) as [<- [<- <-]].
+        { unfold zlen in *. qlia. }
+        f_equal; qlia.
+  Qed.
+
+  Lemma xcolumns_target : XMoveTarget (xcolumns_node its fp dc mw) (map snd its).
+  Proof.
+    unfold xcolumns_node. intros s col row i cs c' r' nf Hf Hok _ E. cbn [n_fits n_move n_place] in *. unfold xcolumns_move in E.
+    cbv zeta in E.
+    destruct (columns_best (xcolumns_sizes its fp dc mw s) (map (fun it : copt * bool * xinfo => i_sel (xc (snd it))) its) 0 0 dc col None)
+      as [[[[i0 x0] e0] cs0]|] eqn:Ebest; [|discriminate].
+    destruct (i_hasmove (xc (nth_xinfo (map snd its) i0))) eqn:Eh; [|discriminate].
+    inversion E; subst. split; [exact Eh|].
+    destruct (xcolumns_best_placed s col i x0 e0 cs Hf Ebest) as [Hi [Hsel Hpl]]. destruct (Hpl fp) as [Hin Hfun].
+    split; [rewrite zlen_map; exact Hi|]. split; [right; auto|].
+    exists (Placed i x0 0 cs (fp =? i) false). cbn [p_idx p_size p_y p_isfocus].
+    repeat split; auto; try qlia. intro H; discriminate H.
+  Qed.
+
+  Lemma xcolumns_place_refocus s fp' q :
+    xcolumns_fits its fp dc mw s = true ->
+    In q (columns_place_from (xcolumns_sizes its fp dc mw s) 0 0 (zlen (xcolumns_sizes its fp dc mw s)) fp' dc) ->
+    exists q0, In q0 (columns_place_from (xcolumns_sizes its fp dc mw s) 0 0 (zlen (xcolumns_sizes its fp dc mw s)) fp dc)
+               /\ p_idx q0 = p_idx q /\ p_size q0 = p_size q.
+  Proof.
+    intros Hf Hq. destruct (xcolumns_fits_inv its fp dc mw s Hf) as [_ [_ [_ [Hw _]]]].
+    destruct (columns_place_from_inv fp' dc _ 0 0 _ q eq_refl Hw Hq) as [pre [x [post [E ->]]]].
+    pose proof Hw as Hw'. rewrite E in Hw'. apply Forall_app in Hw' as [Hpre Hrest]. pose proof (Forall_inv Hrest) as Hx. cbn beta in Hx.
+    exists (Placed (0 + zlen pre) (0 + xoff dc pre) 0 (snd x) (fp =? 0 + zlen pre) false).
+    split; [|split; reflexivity]. rewrite E at 1. rewrite E. apply columns_place_from_in; auto.
+  Qed.
+End XColumnsTarget.
+
+(* the size class a column's widget is rendered with (the number of rows of a box size does not matter) *)
+Definition xcol_cs (s : size) (w : Z) (it : copt * bool * xinfo) : size :=
+  let '(o, isbox, xi) := it in
+  if is_fixed s then match o with CGiven n => if isbox then (n, Some 0) else (n, None) | _ => fixed_size end
+  else
+    let bx := match snd s with Some _ => i_box (xc xi) || isbox | None => isbox end in
+    if bx then (w, Some 0) else if x_flow xi then (w, None) else if is_cpack o then fixed_size else (w, Some 0).
+Definition xcrel_f (s : size) (x y : copt * bool * xinfo) : Prop :=
+  fst x = fst y /\ xieq (xcol_cs s 0 y) (snd x) (snd y).
+Definition xzrel (s : size) (p q : Z * (copt * bool * xinfo)) : Prop :=
+  fst p = fst q /\ fst (snd p) = fst (snd q) /\ xieq (xcol_cs s (fst q) (snd q)) (snd (snd p)) (snd (snd q)).
+
+Lemma xstatic_w_stat o xi xi' mw maxcol : xstat xi xi' -> xstatic_w o xi mw maxcol = xstatic_w o xi' mw maxcol.
+Proof. intros [Hf [Hx [Hp _]]]. unfold xstatic_w. rewrite Hf, Hx, Hp. reflexivity. Qed.
+
+Lemma xcw_phase1_stat a b : Forall2 crel_stat a b -> forall i fp dc mw maxcol shared,
+  xcw_phase1 a i fp dc mw maxcol shared = xcw_phase1 b i fp dc mw maxcol shared.
+Proof.
+  intro H. induction H as [|[[o ib] xi] [[o' ib'] xi'] l l' [Ho Hs] _ IH]; intros i fp dc mw maxcol shared; [reflexivity|].
+  cbn [xcw_phase1 fst snd] in *. inversion Ho; subst o' ib'. rewrite (xstatic_w_stat o xi xi' mw maxcol Hs), IH. reflexivity.
+Qed.
+Lemma xcolumn_widths_stat a b fp dc mw maxcol : Forall2 crel_stat a b -> xcolumn_widths a fp dc mw maxcol = xcolumn_widths b fp dc mw maxcol.
+Proof. intro H. unfold xcolumn_widths. rewrite (xcw_phase1_stat a b H). reflexivity. Qed.
+
+(* one column of a Columns rendered fixed *)
+Lemma xcol_fixed_item s x y :
+  is_fixed s = true -> xcrel_f s x y -> (match fst (fst y) with CGiven n => 1 <= n | _ => True end) ->
+  (let '(o, isbox, xi) := x in match o with CGiven n => if isbox then [] else [i_rows (xc xi) n] | _ => [snd (x_pack xi)] end)
+  = (let '(o, isbox, xi) := y in match o with CGiven n => if isbox then [] else [i_rows (xc xi) n] | _ => [snd (x_pack xi)] end)
+  /\ forall mh,
+     (let '(o, isbox, xi) := x in
+      match o with
+      | CGiven n => if isbox then (n, mh, (n, Some mh)) else (n, i_rows (xc xi) n, (n, None))
+      | _ => (fst (x_pack xi), snd (x_pack xi), fixed_size)
+      end)
+     = (let '(o, isbox, xi) := y in
+      match o with
+      | CGiven n => if isbox then (n, mh, (n, Some mh)) else (n, i_rows (xc xi) n, (n, None))
+      | _ => (fst (x_pack xi), snd (x_pack xi), fixed_size)
+      end).
+Proof.
+  intros Efx [Ho Hx] Hn. destruct x as [[o ib] xi], y as [[o' ib'] xi']. cbn [fst snd] in *. inversion Ho; subst o' ib'.
+  unfold xcol_cs in Hx. rewrite Efx in Hx. destruct (xieq_stat _ _ _ Hx) as [_ [_ [Hp _]]].
+  destruct o as [n| |].
+  - destruct ib; [split; reflexivity|]. assert (Hn0 : 0 <= n) by qlia. rewrite (xieq_rows n xi xi' Hn0 Hx). split; reflexivity.
+  - rewrite (xieq_pack _ _ Hx), Hp. split; reflexivity.
+  - rewrite (xieq_pack _ _ Hx), Hp. split; reflexivity.
+Qed.
+
+(* one column of a Columns rendered with (maxcol,) or (maxcol, maxrow) *)
+Lemma xcol_sized_item s p q :
+  is_fixed s = false -> xzrel s p q -> 1 <= fst q ->
+  i_box (xc (snd (snd p))) = i_box (xc (snd (snd q))) /\ x_flow (snd (snd p)) = x_flow (snd (snd q)) /\
+  (x_flow (snd (snd q)) = true -> i_box (xc (snd (snd q))) || snd (fst (snd q)) = false \/ snd s = None /\ snd (fst (snd q)) = false ->
+     i_rows (xc (snd (snd p))) (fst q) = i_rows (xc (snd (snd q))) (fst q)) /\
+  (x_flow (snd (snd q)) = false -> is_cpack (fst (fst (snd q))) = true ->
+     i_box (xc (snd (snd q))) || snd (fst (snd q)) = false \/ snd s = None /\ snd (fst (snd q)) = false ->
+     snd (x_pack (snd (snd p))) = snd (x_pack (snd (snd q)))).
+Proof.
+  intros Efx [Hw [Ho Hx]] Hq. destruct p as [w [[o ib] xi]], q as [w' [[o' ib'] xi']]. cbn [fst snd] in *.
+  inversion Ho; subst o' ib'. subst w'. destruct (xieq_stat _ _ _ Hx) as [Hf [_ [_ Hb]]].
+  split; [exact Hb|]. split; [exact Hf|]. unfold xcol_cs in Hx. rewrite Efx in Hx.
+  assert (Hw0 : 0 <= w) by qlia.
+  split.
+  - intros Efl Hcase. rewrite Efl in Hx.
+    destruct Hcase as [Hc|[Es Hc]].
+    + assert (Ebx : match snd s with Some _ => i_box (xc xi') || ib | None => ib end = false).
+      { destruct (snd s); [exact Hc|]. apply orb_false_iff in Hc as [_ Hc]. exact Hc. }
+      rewrite Ebx in Hx. apply (xieq_rows w xi xi' Hw0 Hx).
+    + rewrite Es, Hc in Hx. apply (xieq_rows w xi xi' Hw0 Hx).
+  - intros Efl Ecp Hcase. rewrite Efl, Ecp in Hx.
+    destruct Hcase as [Hc|[Es Hc]].
+    + assert (Ebx : match snd s with Some _ => i_box (xc xi') || ib | None => ib end = false).
+      { destruct (snd s); [exact Hc|]. apply orb_false_iff in Hc as [_ Hc]. exact Hc. }
+      rewrite Ebx in Hx. apply (xieq_pack _ _ Hx).
+    + rewrite Es, Hc in Hx. apply (xieq_pack _ _ Hx).
+Qed.
+
+Lemma xcolumns_sizes_cong_fixed s a b fp dc mw :
+  is_fixed s = true -> Forall2 (xcrel_f s) a b ->
+  Forall (fun t => 1 <= cw t) (xcolumns_sizes b fp dc mw s) ->
+  xcolumns_sizes a fp dc mw s = xcolumns_sizes b fp dc mw s.
+Proof.
+  intros Efx H Hw.
+  assert (Hst : Forall2 crel_stat a b).
+  { clear Hw. induction H as [|x y l l' [H1 H2] _ IH]; constructor; auto. split; [exact H1|]. eapply xieq_stat; eauto. }
+  unfold xcolumns_sizes in *. rewrite Efx in *. rewrite (xcolumns_fixed_supported_stat a b Hst).
+  destruct (xcolumns_fixed_supported b); [|reflexivity].
+  set (hsf := fun it : copt * bool * xinfo => let '(o, isbox, xi) := it in
+                  match o with CGiven n => if isbox then [] else [i_rows (xc xi) n] | _ => [snd (x_pack xi)] end) in *.
+  cbv zeta in *.
+  set (F := fun (mh : Z) (it : copt * bool * xinfo) => let '(o, isbox, xi) := it in
+             match o with
+             | CGiven n => if isbox then (n, mh, (n, Some mh)) else (n, i_rows (xc xi) n, (n, None))
+             | _ => (fst (x_pack xi), snd (x_pack xi), fixed_size)
+             end) in *.
+  assert (Hitems : Forall2 (fun x y => hsf x = hsf y /\ forall mh, F mh x = F mh y) a b).
+  { revert Hw. generalize (zmaxl (flat_map hsf b)). intros mh Hw. clear Hst.
+    induction H as [|x y l l' Hxy _ IH]; [constructor|]. cbn [map] in Hw. inversion Hw; subst.
+    constructor; [|apply IH; assumption].
+    apply (xcol_fixed_item s x y Efx Hxy). destruct y as [[o ib] xi]. cbn [fst]. unfold F, cw in H2.
+    destruct o; [|exact I|exact I]. destruct ib; cbn [fst] in H2; exact H2. }
+  assert (Ehs : flat_map hsf a = flat_map hsf b).
+  { clear - Hitems. induction Hitems as [|x y l l' [H1 _] _ IH]; [reflexivity|]. cbn [flat_map]. rewrite H1, IH. reflexivity. }
+  rewrite Ehs. generalize (zmaxl (flat_map hsf b)). intro mh.
+  clear - Hitems. induction Hitems as [|x y l l' [_ H2] _ IH]; [reflexivity|]. cbn [map]. rewrite H2, IH. reflexivity.
+Qed.
+
+Lemma xcolumns_sizes_cong_sized s a b fp dc mw :
+  is_fixed s = false -> Forall2 crel_stat a b ->
+  Forall2 (xzrel s) (combine (xcolumn_widths b fp dc mw (fst s)) a) (combine (xcolumn_widths b fp dc mw (fst s)) b) ->
+  Forall (fun t => 1 <= cw t) (xcolumns_sizes b fp dc mw s) ->
+  xcolumns_sizes a fp dc mw s = xcolumns_sizes b fp dc mw s.
+Proof.
+  intros Efx Hst H Hw. unfold xcolumns_sizes in *. rewrite Efx in *. rewrite (xcolumn_widths_stat a b fp dc mw (fst s) Hst).
+  set (ws := xcolumn_widths b fp dc mw (fst s)) in *. cbv zeta in *.
+  destruct (snd s) as [maxrow|] eqn:Es.
+  - (* box *)
+    revert Hw. generalize (combine ws b) (combine ws a) H. clear H. intros zb za H Hw.
+    induction H as [|p q l l' Hpq _ IH]; [reflexivity|]. cbn [map] in *. inversion Hw; subst. rewrite (IH H3). f_equal.
+    assert (Hq : 1 <= fst q).
+    { destruct q as [w [[o ib] xi]]. cbn [fst]. unfold cw in H2.
+      destruct (i_box (xc xi) || ib); [exact H2|]. destruct (x_flow xi); [exact H2|]. destruct (is_cpack o); exact H2. }
+    destruct (xcol_sized_item s p q Efx Hpq Hq) as [Hb [Hf [Hr Hp]]].
+    destruct Hpq as [Hw0 [Ho _]].
+    destruct p as [w [[o ib] xi]], q as [w' [[o' ib'] xi']]. cbn [fst snd] in *. inversion Ho; subst o' ib'. subst w'.
+    rewrite Hb, Hf. destruct (i_box (xc xi') || ib) eqn:Ebx; [reflexivity|].
+    assert (E0 : 0 <? w = true) by qlia. rewrite E0.
+    destruct (x_flow xi') eqn:Efl.
+    + rewrite (Hr eq_refl (or_introl eq_refl)). reflexivity.
+    + destruct (is_cpack o) eqn:Ecp; [|reflexivity]. rewrite (Hp eq_refl eq_refl (or_introl eq_refl)). reflexivity.
+  - (* flow *)
+    set (hsf := fun p : Z * (copt * bool * xinfo) => let '(width, (o, isbox, xi)) := p in
+                  if isbox then []
+                  else if x_flow xi then [if 0 <? width then i_rows (xc xi) width else 0]
+                  else if is_cpack o then [if 0 <? width then snd (x_pack xi) else 0]
+                  else []) in *.
+    set (G := fun (mx : Z) (p : Z * (copt * bool * xinfo)) => let '(width, (o, isbox, xi)) := p in
+             if isbox then (width, mx, (width, Some mx))
+             else if x_flow xi then (width, (if 0 <? width then i_rows (xc xi) width else 0), (width, None))
+             else if is_cpack o then (width, (if 0 <? width then snd (x_pack xi) else 0), fixed_size)
+             else (width, mx, (width, Some mx))) in *.
+    assert (Hitems : Forall2 (fun p q => hsf p = hsf q /\ forall mx, G mx p = G mx q) (combine ws a) (combine ws b)).
+    { revert Hw. generalize (Z.max 1 (zmaxl (flat_map hsf (combine ws b)))). intros mx Hw.
+      revert Hw. generalize (combine ws b) (combine ws a) H. clear H. intros zb za H Hw.
+      induction H as [|p q l l' Hpq _ IH]; [constructor|]. cbn [map] in Hw. inversion Hw; subst.
+      constructor; [|apply IH; assumption].
+      assert (Hq : 1 <= fst q).
+      { destruct q as [w [[o ib] xi]]. cbn [fst]. unfold G, cw in H2.
+        destruct ib; [exact H2|]. destruct (x_flow xi); [exact H2|]. destruct (is_cpack o); exact H2. }
+      destruct (xcol_sized_item s p q Efx Hpq Hq) as [Hb [Hf [Hr Hp]]].
+      destruct Hpq as [Hw0 [Ho _]].
+      destruct p as [w [[o ib] xi]], q as [w' [[o' ib'] xi']]. cbn [fst snd] in *. inversion Ho; subst o' ib'. subst w'.
+      unfold hsf, G. rewrite Hf. destruct ib; [split; reflexivity|].
+      assert (E0 : 0 <? w = true) by qlia. rewrite E0.
+      destruct (x_flow xi') eqn:Efl.
+      + rewrite (Hr eq_refl (or_intror (conj eq_refl eq_refl))). split; reflexivity.
+      + destruct (is_cpack o) eqn:Ecp; [|split; reflexivity].
+        rewrite (Hp eq_refl eq_refl (or_intror (conj eq_refl eq_refl))). split; reflexivity. }
+    assert (Ehs : flat_map hsf (combine ws a) = flat_map hsf (combine ws b)).
+    { clear - Hitems. induction Hitems as [|x y l l' [H1 _] _ IH]; [reflexivity|]. cbn [flat_map]. rewrite H1, IH. reflexivity. }
+    rewrite Ehs. generalize (Z.max 1 (zmaxl (flat_map hsf (combine ws b)))). intro mx.
+    clear - Hitems. induction Hitems as [|x y l l' [_ H2] _ IH]; [reflexivity|]. cbn [map]. rewrite H2, IH. reflexivity.
+Qed.
